@@ -21,7 +21,7 @@ META = {
             "statement is refuted in Coq (C12_refuted: rule r = repeat(rule a = \"x\") on xxxx, limit 3: Ok with 1 pair instead of 4; replayed on the "
             "real code through the closure tree and through `r = { a* } a = { \"x\" }` in pest_vm) and proved outside the decidable classes "
             "absorbed-refusal / panic (C12_shipped_outside_classes). Every run ties model and code: all limits 1..calls+2 for exhaustive "
-            "absorber x refusable x tail closure trees on all short inputs, random closure trees, fixed and random small grammars through "
+            "(and eight huge limits from 2^31-1 to usize::MAX, handled symbolically by the model runner) for exhaustive absorber x refusable x tail closure trees on all short inputs, random closure trees, fixed and random small grammars through "
             "pest_meta::parse_and_optimize + pest_vm::Vm::parse and through their translation into closure trees; every observation (full state dump + "
             "state() outcome) is recomputed by the extracted model, and both clauses are checked on the real results themselves.",
     "note": "Trusted: Coq kernel; extraction (ExtrOcamlBasic only); harness/runner; the hand-written model of parser_state.rs (Layer C, validated "
